@@ -896,6 +896,7 @@ func unop(fr *frame, instr *ssa.UnOp, x value) value {
 			return -x
 		}
 	case token.MUL:
+		raceAccess(fr, mustDeref(instr.X.Type()), x.(*value), false)
 		return load(mustDeref(instr.X.Type()), x.(*value))
 	case token.NOT:
 		return !x.(bool)
